@@ -199,11 +199,11 @@ theorem setStorage_frame (cid : Nat) (m : Mod) (s : State) (live : List Live) :
       | none => exact h.trans ⟨rfl, rfl, rfl, rfl, rfl, rfl⟩
       | some r => exact h
 
-theorem restoreStorage_frame (s : State) : FrameX s (restoreStorage s) := by
+theorem restoreStorage_frame (p : Nat) (s : State) : FrameX s (restoreStorage p s) := by
   unfold restoreStorage
   split <;> exact ⟨rfl, rfl, rfl, rfl, rfl, rfl⟩
 
-theorem restoreStorage_socks (s : State) : (restoreStorage s).socks = s.socks := (restoreStorage_frame s).socks
+theorem restoreStorage_socks (p : Nat) (s : State) : (restoreStorage p s).socks = s.socks := (restoreStorage_frame p s).socks
 
 theorem provisionContext_frame (cid : Nat) (c : Cfg) (pp : List Nat) (s : State) :
     FrameX s (provisionContext cid c pp s).1 := by
@@ -212,21 +212,21 @@ theorem provisionContext_frame (cid : Nat) (c : Cfg) (pp : List Nat) (s : State)
   generalize openLogs cid c.logs s = r1 at h1
   obtain ⟨s1, live1, wk, o1⟩ := r1
   cases o1 with
-  | some r => exact (h1.trans (cancel_frame _ _ _ _ _).toX).trans (restoreStorage_frame _)
+  | some r => exact (h1.trans (cancel_frame _ _ _ _ _).toX).trans (restoreStorage_frame _ _)
   | none =>
     dsimp only
     have h1' := h1.trans (setStorage_frame cid c.stor s1 live1)
     generalize setStorage cid c.stor s1 live1 = r1' at h1'
     obtain ⟨s1', live1', o1'⟩ := r1'
     cases o1' with
-    | some r => exact (h1'.trans (cancel_frame _ _ _ _ _).toX).trans (restoreStorage_frame _)
+    | some r => exact (h1'.trans (cancel_frame _ _ _ _ _).toX).trans (restoreStorage_frame _ _)
     | none =>
       dsimp only
       have h2 := (loadApps_frame cid (order pp c.apps) s1' live1').toX
       generalize loadApps cid (order pp c.apps) s1' live1' = r2 at h2
       obtain ⟨s2, live2, o2⟩ := r2
       cases o2 with
-      | some r => exact ((h1'.trans h2).trans (cancel_frame _ _ _ _ _).toX).trans (restoreStorage_frame _)
+      | some r => exact ((h1'.trans h2).trans (cancel_frame _ _ _ _ _).toX).trans (restoreStorage_frame _ _)
       | none => exact h1'.trans h2
 
 /-- the context provisionContext returns on success is for `cid` and holds the config's apps -/
@@ -752,19 +752,19 @@ theorem run_frame4 (cid : Nat) (c : Cfg) (e : Env) (s : State) : Frame4 s (run c
     | some ctx =>
       dsimp only
       split
-      · exact (h1.trans (cancel_frame _ _ _ _ _).to4).trans (restoreStorage_frame _).to4
+      · exact (h1.trans (cancel_frame _ _ _ _ _).to4).trans (restoreStorage_frame _ _).to4
       have h2 := startApps_frame4 cid e.blocked (order e.ps ctx.apps) [] s1
       generalize startApps cid e.blocked [] (order e.ps ctx.apps) s1 = r2 at h2
       obtain ⟨s2, b⟩ := r2
       cases b with
-      | false => exact ((h1.trans h2).trans (cancel_frame _ _ _ _ _).to4).trans (restoreStorage_frame _).to4
+      | false => exact ((h1.trans h2).trans (cancel_frame _ _ _ _ _).to4).trans (restoreStorage_frame _ _).to4
       | true =>
         dsimp only
         have h3 := (finishSettingUp_spec ctx e.post s2).1.to4
         generalize finishSettingUp ctx e.post s2 = r3 at h3
         obtain ⟨s3, ctx', b3⟩ := r3
         cases b3 with
-        | false => dsimp only; exact (((h1.trans h2).trans h3).trans (unsyncedStop_frame4 _ _)).trans (restoreStorage_frame _).to4
+        | false => dsimp only; exact (((h1.trans h2).trans h3).trans (unsyncedStop_frame4 _ _)).trans (restoreStorage_frame _ _).to4
         | true => dsimp only; exact (h1.trans h2).trans h3
 
 /-- an accepted run: the context is the new one and the sockets are exactly the old ones plus
@@ -1231,7 +1231,7 @@ theorem validate_frame (c : Cfg) (e : Env) (s : State) : FrameX s (validate c e 
   | none =>
     cases o with
     | none => exact h1
-    | some ctx => exact (h1.trans (cancel_frame _ _ _ _ _).toX).trans (restoreStorage_frame _)
+    | some ctx => exact (h1.trans (cancel_frame _ _ _ _ _).toX).trans (restoreStorage_frame _ _)
 
 /-- one operation keeps the invariant; the spec is told only whether the operation was accepted -/
 theorem inv_step {s : State} {r : Option Cfg} (h : Inv s r) (op : Op) :
@@ -1317,7 +1317,7 @@ def storOf : Option Ctx → Nat
   | some ctx => ctx.stor
   | none => 0
 
-theorem restoreStorage_dstor (s : State) : (restoreStorage s).dstor = storOf s.cur := by
+theorem restoreStorage_dstor (p : Nat) (s : State) : (restoreStorage p s).dstor = storOf s.cur := by
   unfold restoreStorage storOf; split <;> rename_i h <;> rw [h]
 
 /-- provisionContext and the default storage: on success it is the new config's storage (also
@@ -1334,7 +1334,7 @@ theorem provisionContext_dstor (cid : Nat) (c : Cfg) (pp : List Nat) (s : State)
   cases o1 with
   | some r =>
     refine ⟨fun _ _ hh => by simp at hh, fun _ _ => ?_, fun hh => by simp at hh⟩
-    show (restoreStorage _).dstor = _
+    show (restoreStorage _ _).dstor = _
     rw [restoreStorage_dstor, (cancel_frame _ _ _ _ _).cur, h1.cur]
   | none =>
     dsimp only
@@ -1346,7 +1346,7 @@ theorem provisionContext_dstor (cid : Nat) (c : Cfg) (pp : List Nat) (s : State)
     cases o1' with
     | some r =>
       refine ⟨fun _ _ hh => by simp at hh, fun _ _ => ?_, fun hh => by simp at hh⟩
-      show (restoreStorage _).dstor = _
+      show (restoreStorage _ _).dstor = _
       rw [restoreStorage_dstor, (cancel_frame _ _ _ _ _).cur, h1'.cur, h1.cur]
     | none =>
       dsimp only
@@ -1357,7 +1357,7 @@ theorem provisionContext_dstor (cid : Nat) (c : Cfg) (pp : List Nat) (s : State)
       cases o2 with
       | some r =>
         refine ⟨fun _ _ hh => by simp at hh, fun _ _ => ?_, fun hh => by simp at hh⟩
-        show (restoreStorage _).dstor = _
+        show (restoreStorage _ _).dstor = _
         rw [restoreStorage_dstor, (cancel_frame _ _ _ _ _).cur, h2.cur, h1'.cur, h1.cur]
       | none =>
         refine ⟨fun s1x ctx hh => ?_, fun r hh => by simp at hh, fun _ => ⟨_, rfl⟩⟩
@@ -1441,7 +1441,7 @@ theorem run_dstor (cid : Nat) (c : Cfg) (e : Env) (s : State) :
     by_cases hadm : e.adm = 2
     · simp only [hadm, if_true]
       refine ⟨fun _ _ hh => by simp at hh, fun _ => ?_⟩
-      show (restoreStorage _).dstor = _
+      show (restoreStorage _ _).dstor = _
       rw [restoreStorage_dstor, (cancel_frame _ _ _ _ _).cur, hf.cur]
     simp only [hadm, if_false]
     have hs := startApps_frame4 cid e.blocked (order e.ps ctx.apps) [] s1
@@ -1453,7 +1453,7 @@ theorem run_dstor (cid : Nat) (c : Cfg) (e : Env) (s : State) :
     | false =>
       dsimp only
       refine ⟨fun _ _ hh => by simp at hh, fun _ => ?_⟩
-      show (restoreStorage _).dstor = _
+      show (restoreStorage _ _).dstor = _
       rw [restoreStorage_dstor, (cancel_frame _ _ _ _ _).cur, hs.cur, hf.cur]
     | true =>
       dsimp only
@@ -1466,7 +1466,7 @@ theorem run_dstor (cid : Nat) (c : Cfg) (e : Env) (s : State) :
       | false =>
         dsimp only
         refine ⟨fun _ _ hh => by simp at hh, fun _ => ?_⟩
-        show (restoreStorage _).dstor = _
+        show (restoreStorage _ _).dstor = _
         rw [restoreStorage_dstor, (unsyncedStop_frame4 _ _).cur, h3.cur, hs.cur, hf.cur]
       | true =>
         dsimp only
@@ -1488,7 +1488,7 @@ theorem validate_dstor (c : Cfg) (e : Env) (s : State) : (validate c e s).1.dsto
     obtain ⟨ctx, hctx⟩ := hd.2.2 rfl
     simp only at hctx
     subst hctx
-    show (restoreStorage _).dstor = _
+    show (restoreStorage _ _).dstor = _
     rw [restoreStorage_dstor, (cancel_frame _ _ _ _ _).cur, hf.cur]
 
 /-! ### the process-wide default logger (caddy.Log()) -/
@@ -1505,21 +1505,23 @@ theorem setStorage_dlogger (cid : Nat) (m : Mod) (s : State) (live : List Live) 
       obtain ⟨s', live', o⟩ := r
       cases o <;> exact h.dlogger
 
-theorem restoreStorage_dlogger (s : State) : (restoreStorage s).dlogger = s.dlogger := by
+theorem restoreStorage_dlogger (p : Nat) (s : State) : (restoreStorage p s).dlogger = p := by
   unfold restoreStorage; split <;> rfl
 
-/-- provisionContext leaves the process default logger at ITS OWN context's default log, whether
-    it succeeds or fails: openLogs installs it first, nothing puts the previous one back -/
+/-- provisionContext: on success the process default logger is ITS context's default log
+    (openLogs installs it first); on every error the previous one is put back -/
 theorem provisionContext_dlogger (cid : Nat) (c : Cfg) (pp : List Nat) (s : State) :
-    (provisionContext cid c pp s).1.dlogger = cid + 1 := by
+    (∀ r, (provisionContext cid c pp s).2.2 = some r → (provisionContext cid c pp s).1.dlogger = s.dlogger) ∧
+    ((provisionContext cid c pp s).2.2 = none → (provisionContext cid c pp s).1.dlogger = cid + 1) := by
   unfold provisionContext
   have h1 := (openLogs_dlogger cid c.logs s).1
   generalize openLogs cid c.logs s = r1 at h1
   obtain ⟨s1, live1, wk, o1⟩ := r1
   cases o1 with
   | some r =>
-    show (restoreStorage _).dlogger = _
-    rw [restoreStorage_dlogger, (cancel_frame _ _ _ _ _).dlogger]; exact h1
+    refine ⟨fun _ _ => ?_, fun hh => by simp at hh⟩
+    show (restoreStorage _ _).dlogger = _
+    rw [restoreStorage_dlogger]
   | none =>
     dsimp only
     have h1' := setStorage_dlogger cid c.stor s1 live1
@@ -1527,8 +1529,9 @@ theorem provisionContext_dlogger (cid : Nat) (c : Cfg) (pp : List Nat) (s : Stat
     obtain ⟨s1', live1', o1'⟩ := r1'
     cases o1' with
     | some r =>
-      show (restoreStorage _).dlogger = _
-      rw [restoreStorage_dlogger, (cancel_frame _ _ _ _ _).dlogger, h1']; exact h1
+      refine ⟨fun _ _ => ?_, fun hh => by simp at hh⟩
+      show (restoreStorage _ _).dlogger = _
+      rw [restoreStorage_dlogger]
     | none =>
       dsimp only
       have h2 := (loadApps_frame cid (order pp c.apps) s1' live1').dlogger
@@ -1536,9 +1539,12 @@ theorem provisionContext_dlogger (cid : Nat) (c : Cfg) (pp : List Nat) (s : Stat
       obtain ⟨s2, live2, o2⟩ := r2
       cases o2 with
       | some r =>
-        show (restoreStorage _).dlogger = _
-        rw [restoreStorage_dlogger, (cancel_frame _ _ _ _ _).dlogger, h2, h1']; exact h1
-      | none => show s2.dlogger = _; rw [h2, h1']; exact h1
+        refine ⟨fun _ _ => ?_, fun hh => by simp at hh⟩
+        show (restoreStorage _ _).dlogger = _
+        rw [restoreStorage_dlogger]
+      | none =>
+        refine ⟨fun _ hh => by simp at hh, fun _ => ?_⟩
+        show s2.dlogger = _; rw [h2, h1']; exact h1
 
 theorem bindAll_dlogger (cid : Nat) (a : App) (blocked l : List Nat) (s : State) :
     (bindAll cid a blocked l s).1.dlogger = s.dlogger := by
@@ -1587,25 +1593,34 @@ theorem unsyncedStop_dlogger (c : Option Ctx) (s : State) : (unsyncedStop c s).d
   | none => rfl
   | some ctx => dsimp only; rw [(cancel_frame _ _ _ _ _).dlogger, stopApps_dlogger]
 
-/-- run leaves the process default logger at the default log of the context it built — accepted
-    or rejected, wherever it failed -/
-theorem run_dlogger (cid : Nat) (c : Cfg) (e : Env) (s : State) : (run cid c e s).1.dlogger = cid + 1 := by
+/-- run: accepted ⇒ the process default logger is the new context's default log; rejected, wherever
+    it failed ⇒ it is what it was when run was entered -/
+theorem run_dlogger (cid : Nat) (c : Cfg) (e : Env) (s : State) :
+    ((run cid c e s).2.2 = .ok → (run cid c e s).1.dlogger = cid + 1) ∧
+    ((run cid c e s).2.2 ≠ .ok → (run cid c e s).1.dlogger = s.dlogger) := by
   unfold run
   have hd := provisionContext_dlogger cid c e.pp s
-  generalize provisionContext cid c e.pp s = r1 at hd
+  have he := provisionContext_err cid c e.pp s
+  have hx := (provisionContext_dstor cid c e.pp s).2.2
+  generalize provisionContext cid c e.pp s = r1 at hd he hx
   obtain ⟨s1, o1, e1⟩ := r1
-  simp only at hd
+  simp only at hd he hx
   cases e1 with
-  | some r => exact hd
+  | some r =>
+    refine ⟨fun hh => ?_, fun _ => hd.1 r rfl⟩
+    have := he r rfl
+    simp only at hh; subst hh; cases this
   | none =>
+    have hd2 := hd.2 rfl
     cases o1 with
-    | none => exact hd
+    | none => obtain ⟨ctx, hctx⟩ := hx rfl; cases hctx
     | some ctx =>
       dsimp only
       by_cases hadm : e.adm = 2
       · simp only [hadm, if_true]
-        show (restoreStorage _).dlogger = _
-        rw [restoreStorage_dlogger, (cancel_frame _ _ _ _ _).dlogger]; exact hd
+        refine ⟨fun hh => absurd hh (by simp), fun _ => ?_⟩
+        show (restoreStorage _ _).dlogger = _
+        rw [restoreStorage_dlogger]
       simp only [hadm, if_false]
       have hs := startApps_dlogger cid e.blocked (order e.ps ctx.apps) [] s1
       generalize startApps cid e.blocked [] (order e.ps ctx.apps) s1 = r2 at hs
@@ -1613,8 +1628,9 @@ theorem run_dlogger (cid : Nat) (c : Cfg) (e : Env) (s : State) : (run cid c e s
       simp only at hs
       cases b with
       | false =>
-        show (restoreStorage _).dlogger = _
-        rw [restoreStorage_dlogger, (cancel_frame _ _ _ _ _).dlogger, hs]; exact hd
+        refine ⟨fun hh => absurd hh (by simp), fun _ => ?_⟩
+        show (restoreStorage _ _).dlogger = _
+        rw [restoreStorage_dlogger]
       | true =>
         dsimp only
         have h3 := (finishSettingUp_spec ctx e.post s2).1.dlogger
@@ -1623,23 +1639,28 @@ theorem run_dlogger (cid : Nat) (c : Cfg) (e : Env) (s : State) : (run cid c e s
         simp only at h3
         cases b3 with
         | false =>
-          show (restoreStorage _).dlogger = _
-          rw [restoreStorage_dlogger, unsyncedStop_dlogger, h3, hs]; exact hd
-        | true => show s3.dlogger = _; rw [h3, hs]; exact hd
+          refine ⟨fun hh => absurd hh (by simp), fun _ => ?_⟩
+          show (restoreStorage _ _).dlogger = _
+          rw [restoreStorage_dlogger]
+        | true =>
+          refine ⟨fun _ => ?_, fun hne => absurd rfl hne⟩
+          show s3.dlogger = _; rw [h3, hs]; exact hd2
 
-theorem validate_dlogger (c : Cfg) (e : Env) (s : State) : (validate c e s).1.dlogger = s.next + 1 := by
+/-- Validate puts the process default logger back, whether the dry run succeeds or not -/
+theorem validate_dlogger (c : Cfg) (e : Env) (s : State) : (validate c e s).1.dlogger = s.dlogger := by
   unfold validate
   have hd := provisionContext_dlogger s.next c e.pp s
-  generalize provisionContext s.next c e.pp s = q at hd
+  have hx := (provisionContext_dstor s.next c e.pp s).2.2
+  generalize provisionContext s.next c e.pp s = q at hd hx
   obtain ⟨s1, o, r⟩ := q
-  simp only at hd
+  simp only at hd hx
   cases r with
-  | some r => exact hd
+  | some r => exact hd.1 r rfl
   | none =>
     cases o with
-    | none => exact hd
+    | none => obtain ⟨ctx, hctx⟩ := hx rfl; cases hctx
     | some ctx =>
-      show (restoreStorage _).dlogger = _
-      rw [restoreStorage_dlogger, (cancel_frame _ _ _ _ _).dlogger]; exact hd
+      show (restoreStorage _ _).dlogger = _
+      rw [restoreStorage_dlogger]
 
 end CaddyModel.C01
